@@ -689,7 +689,9 @@ class RefWorld:
                 for e in pl.get("hook_emits", []):
                     self.emit(self.now, e)
                 if pl.get("rearm") is not None:
-                    self.push(self.now + pl["rearm"], "plain", idx=nxt["idx"], phase2=True)
+                    # the SAME event object goes back on the heap: it keeps its original creation index (C01)
+                    self.pending.append({"t": self.now + pl["rearm"], "seq": nxt["seq"], "kind": "plain", "daemon": False,
+                                         "idx": nxt["idx"], "phase2": True})
             elif k == "start":
                 i = nxt["proc"]
                 p = self.sc["procs"][i]
